@@ -25,7 +25,10 @@ def gen(ctx):
     values = gen_values(rng, coords * (100.0 if unit else 1.0), 'field')
     kw = dict(n_lags=int(rng.integers(4, 8)), maxlag=(None if rng.random() < 0.4 else str(rng.choice(['median', 'mean']))
                                                       if rng.random() < 0.6 else 0.7),
-              model=str(rng.choice(['spherical', 'exponential'])), estimator=str(rng.choice(['matheron', 'cressie'])))
+              model=str(rng.choice(['spherical', 'exponential'])), estimator=str(rng.choice(['matheron', 'cressie'])),
+              bin_func=str(rng.choice(['even', 'even', 'uniform', 'kmeans', 'ward'])))
+    if rng.random() < 0.15 and not unit:
+        kw['maxlag'] = 400.0        # an absolute maximum lag beyond the largest distance (dense MetricSpace below)
     return dict(coords=coords.tolist(), values=values.tolist(), kw=kw, unit=unit,
                 sigma=float(rng.choice([0.0, 0.3, 0.3, 1.5])), q=float(rng.choice([0, 0, 0, 5, 10, 25, 33, 7.5, 50, 100])),
                 num_iter=int(rng.choice([9, 15, 30])), seed=int(rng.integers(0, 10 ** 6)),
